@@ -90,7 +90,7 @@ def ident(name):
 
 # functions of mir_eval/segment.py, in emission order; REQUIRED: one that leaves the subset is a translator problem
 WANTED = ["_contingency_matrix", "_adjusted_rand_index", "pairwise", "rand_index", "ari",
-          "_entropy", "_mutual_info_score", "nce", "vmeasure"]
+          "_entropy", "_mutual_info_score", "_normalized_mutual_info_score", "nce", "vmeasure"]
 
 NAT, INT, RAT, NUM, BOOL, NONE = ("nat",), ("int",), ("rat",), ("num",), ("bool",), ("none",)
 BOOLMAT, FRAMELABELS, INTERVALS, STRLIST = ("boolmat",), ("framelabels",), ("intervals",), ("strlist",)
